@@ -73,5 +73,286 @@ func init() {
 		g.def("fixedReads", "List Nat", "["+strings.Join(sizes, ", ")+"]")
 		g.def("headerSumWidened", "Bool", widened)
 		_ = fmt.Sprint
+		streamFacts(g, mf)
 	})
+}
+
+// streamFacts: how frames travel from the logging goroutines to the stream's writer. Nothing here
+// depends on a function's name: the channel is "the struct field of type chan []byte", the writer
+// "the field of type io.Writer", a sender "a function with a send on that channel" (a helper that
+// only forwards its parameter to the channel counts at its call sites).
+//
+//	framecSendsWhole     every sender makes exactly ONE send per call, outside any loop / closure, of a
+//	                     variable that was obtained from one constructor call in that function and is
+//	                     otherwise only extended (`v = append(v, …)` or any `v = f(v, …)`), and does not touch it after the send
+//	framecSenders        number of sender functions (> 0)
+//	framecReceivers      receive expressions on the channel in the file
+//	writerWritesReceived the receive is `case v := <-ch:` whose body passes v exactly once to <writer>.Write
+//	                     and mentions v nowhere else (nothing recycles or edits the slice after Write)
+//	streamWriteCalls     calls of <writer>.Write in the file
+//	writerGoroutines     `go` statements that start the receiving function
+//	framecUnbuffered     the channel is made without a capacity
+func streamFacts(g *gen, mf *ast.File) {
+	chField, wField := "", ""
+	nCh := 0
+	ast.Inspect(mf, func(n ast.Node) bool {
+		st, ok := n.(*ast.StructType)
+		if !ok {
+			return true
+		}
+		for _, f := range st.Fields.List {
+			switch src(f.Type) {
+			case "chan []byte":
+				for _, nm := range f.Names {
+					chField = nm.Name
+					nCh++
+				}
+			case "io.Writer":
+				for _, nm := range f.Names {
+					wField = nm.Name
+				}
+			}
+		}
+		return true
+	})
+	isSel := func(e ast.Expr, field string) bool {
+		sel, ok := e.(*ast.SelectorExpr)
+		return ok && field != "" && sel.Sel.Name == field
+	}
+	type sendOp struct {
+		val    ast.Expr
+		pos    token.Pos
+		nested bool // inside a loop, a closure, a go or defer statement
+	}
+	var funcs []*ast.FuncDecl
+	for _, d := range mf.Decls {
+		if fd, ok := d.(*ast.FuncDecl); ok && fd.Body != nil {
+			funcs = append(funcs, fd)
+		}
+	}
+	// direct sends per function
+	direct := map[*ast.FuncDecl][]sendOp{}
+	var walk func(fd *ast.FuncDecl, n ast.Node, nested bool, visit func(n ast.Node, nested bool))
+	walk = func(fd *ast.FuncDecl, n ast.Node, nested bool, visit func(n ast.Node, nested bool)) {
+		ast.Inspect(n, func(x ast.Node) bool {
+			if x == nil || x == n {
+				return true
+			}
+			switch y := x.(type) {
+			case *ast.ForStmt:
+				visit(y, nested)
+				walk(fd, y.Body, true, visit)
+				return false
+			case *ast.RangeStmt:
+				visit(y, nested)
+				walk(fd, y.Body, true, visit)
+				return false
+			case *ast.FuncLit:
+				walk(fd, y.Body, true, visit)
+				return false
+			case *ast.GoStmt:
+				walk(fd, y.Call, true, visit)
+				return false
+			case *ast.DeferStmt:
+				walk(fd, y.Call, true, visit)
+				return false
+			}
+			visit(x, nested)
+			return true
+		})
+	}
+	for _, fd := range funcs {
+		walk(fd, fd.Body, false, func(n ast.Node, nested bool) {
+			if ss, ok := n.(*ast.SendStmt); ok && isSel(ss.Chan, chField) {
+				direct[fd] = append(direct[fd], sendOp{ss.Value, ss.Pos(), nested})
+			}
+		})
+	}
+	// forwarders: one un-nested send of a parameter
+	params := func(fd *ast.FuncDecl) []string {
+		var out []string
+		for _, f := range fd.Type.Params.List {
+			for _, nm := range f.Names {
+				out = append(out, nm.Name)
+			}
+		}
+		return out
+	}
+	forwarder := map[string]int{} // function name -> index of the forwarded parameter
+	for fd, ops := range direct {
+		if len(ops) != 1 || ops[0].nested {
+			continue
+		}
+		if id, ok := ops[0].val.(*ast.Ident); ok {
+			for k, p := range params(fd) {
+				if p == id.Name {
+					forwarder[fd.Name.Name] = k
+				}
+			}
+		}
+	}
+	senders, whole := 0, true
+	for _, fd := range funcs {
+		if _, isFwd := forwarder[fd.Name.Name]; isFwd {
+			continue
+		}
+		ops := append([]sendOp(nil), direct[fd]...)
+		walk(fd, fd.Body, false, func(n ast.Node, nested bool) {
+			c, ok := n.(*ast.CallExpr)
+			if !ok {
+				return
+			}
+			name := ""
+			switch f := c.Fun.(type) {
+			case *ast.Ident:
+				name = f.Name
+			case *ast.SelectorExpr:
+				name = f.Sel.Name
+			}
+			if k, ok := forwarder[name]; ok && k < len(c.Args) {
+				ops = append(ops, sendOp{c.Args[k], c.Pos(), nested})
+			}
+		})
+		if len(ops) == 0 {
+			continue
+		}
+		senders++
+		ok := len(ops) == 1 && !ops[0].nested
+		var v string
+		if ok {
+			id, isID := ops[0].val.(*ast.Ident)
+			ok = isID
+			if isID {
+				v = id.Name
+			}
+		}
+		if ok {
+			defs, bad, usedAfter := 0, false, false
+			ast.Inspect(fd.Body, func(n ast.Node) bool {
+				switch y := n.(type) {
+				case *ast.AssignStmt:
+					for k, l := range y.Lhs {
+						if id, isID := l.(*ast.Ident); isID && id.Name == v && k < len(y.Rhs) {
+							call, isCall := y.Rhs[k].(*ast.CallExpr)
+							switch {
+							case y.Tok == token.DEFINE && isCall && src(call.Fun) != "append":
+								defs++ // v := constructor(…)
+							case y.Tok == token.ASSIGN && isCall && len(call.Args) > 0 && src(call.Args[0]) == v: // v = append(v, …), v = binary.BigEndian.AppendUint32(v, …)
+							default:
+								bad = true
+							}
+						}
+					}
+				case *ast.Ident:
+					if y.Name == v && y.Pos() > ops[0].pos && y != ops[0].val {
+						usedAfter = true
+					}
+				}
+				return true
+			})
+			ok = defs == 1 && !bad && !usedAfter
+		}
+		if !ok {
+			whole = false
+		}
+	}
+	if senders == 0 {
+		whole = false
+	}
+	// the receiving side
+	receivers, writeCalls, goStarts := 0, 0, 0
+	writesReceived := false
+	recvFunc := ""
+	for _, fd := range funcs {
+		ast.Inspect(fd.Body, func(n ast.Node) bool {
+			switch y := n.(type) {
+			case *ast.UnaryExpr:
+				if y.Op == token.ARROW && isSel(y.X, chField) {
+					receivers++
+					recvFunc = fd.Name.Name
+				}
+			case *ast.CallExpr:
+				if sel, ok := y.Fun.(*ast.SelectorExpr); ok && sel.Sel.Name == "Write" && isSel(sel.X, wField) {
+					writeCalls++
+				}
+			case *ast.CommClause:
+				as, ok := y.Comm.(*ast.AssignStmt)
+				if !ok || len(as.Lhs) != 1 || len(as.Rhs) != 1 {
+					return true
+				}
+				ue, ok := as.Rhs[0].(*ast.UnaryExpr)
+				id, ok2 := as.Lhs[0].(*ast.Ident)
+				if !ok || !ok2 || ue.Op != token.ARROW || !isSel(ue.X, chField) {
+					return true
+				}
+				asArg, elsewhere := 0, 0
+				for _, st := range y.Body {
+					ast.Inspect(st, func(m ast.Node) bool {
+						if c, ok := m.(*ast.CallExpr); ok {
+							if sel, ok := c.Fun.(*ast.SelectorExpr); ok && sel.Sel.Name == "Write" && isSel(sel.X, wField) &&
+								len(c.Args) == 1 && src(c.Args[0]) == id.Name {
+								asArg++
+								ast.Inspect(c.Fun, func(k ast.Node) bool {
+									if i2, ok := k.(*ast.Ident); ok && i2.Name == id.Name {
+										elsewhere++
+									}
+									return true
+								})
+								return false
+							}
+						}
+						if i2, ok := m.(*ast.Ident); ok && i2.Name == id.Name {
+							elsewhere++
+						}
+						return true
+					})
+				}
+				writesReceived = asArg == 1 && elsewhere == 0
+			}
+			return true
+		})
+	}
+	unbuffered := false
+	for _, fd := range funcs {
+		ast.Inspect(fd.Body, func(n ast.Node) bool {
+			switch y := n.(type) {
+			case *ast.GoStmt:
+				name := ""
+				switch f := y.Call.Fun.(type) {
+				case *ast.Ident:
+					name = f.Name
+				case *ast.SelectorExpr:
+					name = f.Sel.Name
+				}
+				if recvFunc != "" && name == recvFunc {
+					goStarts++
+				}
+			case *ast.KeyValueExpr:
+				if src(y.Key) == chField {
+					if c, ok := y.Value.(*ast.CallExpr); ok && src(c.Fun) == "make" {
+						unbuffered = len(c.Args) == 1
+					}
+				}
+			case *ast.AssignStmt:
+				for k, l := range y.Lhs {
+					if isSel(l, chField) && k < len(y.Rhs) {
+						if c, ok := y.Rhs[k].(*ast.CallExpr); ok && src(c.Fun) == "make" {
+							unbuffered = len(c.Args) == 1
+						}
+					}
+				}
+			}
+			return true
+		})
+	}
+	if nCh != 1 {
+		whole = false
+	}
+	g.def("framecSendsWhole", "Bool", strconv.FormatBool(whole))
+	g.def("framecSenders", "Nat", strconv.Itoa(senders))
+	g.def("framecReceivers", "Nat", strconv.Itoa(receivers))
+	g.def("writerWritesReceived", "Bool", strconv.FormatBool(writesReceived))
+	g.def("streamWriteCalls", "Nat", strconv.Itoa(writeCalls))
+	g.def("writerGoroutines", "Nat", strconv.Itoa(goStarts))
+	g.def("framecUnbuffered", "Bool", strconv.FormatBool(unbuffered))
 }
